@@ -133,6 +133,7 @@ func c08Universe() *c08U {
 		"doc2": c08Doc2{c08mid{C08Pub{u.s1}}, u.sk},
 		"nemb": c08NilEmb{nil, u.sk},
 		"kf":   "Title",
+		"nv":   (*Value)(nil), "fnnil": func() *Value { return nil }, "vals": []*Value{AsValue(u.s0), nil},
 	}
 	return u
 }
@@ -203,6 +204,7 @@ func (u *c08U) cases() []c08Case {
 		ok("doc.Body", u.sk), ok("doc.ID", itoa(u.n)), ok("doc.Title", u.s0), ok("doc[\"Title\"]", u.s0), ok("doc[kf]", u.s0), ok("doc.low", ""), ok("doc.Tag", u.s1),
 		ok("doc.C08Pub.Tag", u.s1), ok("doc.Name", u.s2), ok("doc.N", itoa(u.i1)), ok("doc.Caption", "C"+u.s0), ok("doc.c08base", ""), ok("doc.c08base.Title", ""),
 		ok("pdoc.Title", u.s0), ok("pdoc.Name", u.s2), ok("pdoc.Tag", u.s1), ok("pdoc[ks]", ""), ok("doc2.Tag", u.s1), ok("doc2.Body", u.sk), ok("doc2.c08mid.Tag", ""),
+		ok("nv", ""), ok("nv.x", ""), ok("fnnil()", ""), ok("fnnil", ""), ok("vals.0", u.s0), ok("vals.1", ""), ok("fnval(nv)", "1"),
 		ok("nemb.Body", u.sk), ok("nemb.Name", ""), ok("nemb.c08Inner", ""),
 	}
 }
